@@ -256,6 +256,45 @@ func runC06(c *core.Ctx) {
 		c.Shape("reencode", len(d1.Spec.FOpts), len(d2.Spec.FOpts), d2.portKind)
 	}
 
+	// ------------------------------------------------ spec bytes decoded into re-used values
+	var reusedPHY lorawan.PHYPayload
+	var reusedMP lorawan.MACPayload
+	k := c.N(10000, 500000)
+	for i := int64(0); i < k; i++ {
+		if !c.Mine("frames-reused-target", i) {
+			continue
+		}
+		r := c.RNG("frames-reused-target", i)
+		o := anyData()
+		o.maxFRM = 40
+		d := genDataCase(r, o)
+		var mic [4]byte
+		r.Fill(mic[:])
+		wire := append(d.Spec.Msg(), mic[:]...)
+		chk := func(what string, mp *lorawan.MACPayload, err error) {
+			c.Eval(1)
+			if err != nil {
+				c.Violate("C06|frame|data|decode-refused|"+what, "%x: %v", wire, err)
+				return
+			}
+			fo, _ := payloadBytes(mp.FHDR.FOpts)
+			fp, _ := payloadBytes(mp.FRMPayload)
+			if [4]byte(mp.FHDR.DevAddr) != d.Spec.DevAddr || mp.FHDR.FCnt != d.Spec.FCnt&0xffff || !bytes.Equal(fo, d.Spec.FOpts) || !bytes.Equal(fp, d.Spec.FRMPayload) ||
+				(mp.FPort == nil) != (d.Spec.FPort < 0) || (mp.FPort != nil && int(*mp.FPort) != d.Spec.FPort) {
+				c.Violate("C06|frame|data|decode-into-used-value|"+what, "spec bytes %x decoded into a %s value that was used before give %s", wire, what, short(core.Dump(mp), 400))
+			}
+		}
+		err := reusedPHY.UnmarshalBinary(append([]byte{}, wire...))
+		mp, _ := reusedPHY.MACPayload.(*lorawan.MACPayload)
+		if mp == nil {
+			mp = &lorawan.MACPayload{}
+		}
+		chk("PHYPayload", mp, err)
+		err = reusedMP.UnmarshalBinary(d.Spec.Uplink(), append([]byte{}, wire[1:len(wire)-4]...))
+		chk("MACPayload", &reusedMP, err)
+		c.Shape("reused-target", len(d.Spec.FOpts) > 0, d.portKind)
+	}
+
 	// ------------------------------------------------ frames against the spec serialisers
 	n := c.N(20000, 1000000)
 	for i := int64(0); i < n; i++ {
